@@ -8,6 +8,7 @@ Property theorems only (helper lemmas: `Proofs/BrokerFanout*.lean`).  Model:
 theorems (`Properties/C06.lean`); specification: `Spec/Broker.lean`.
 -/
 import Mqtt.Proofs.BrokerFanoutHistory
+import Mqtt.Proofs.BrokerRefineCor
 
 set_option linter.unusedSimpArgs false
 
@@ -479,5 +480,37 @@ example :
        .call 1001 { qos := 0, retain := true, topic := [97, 47, 98], pktid := 9, payload := [1] }] ∧
     (srvSub exRetState 1001 [97, 47, 35, 98] 0).2 = [.apiErr] := by
   decide
+
+/-! ### the refinement theorem, specialised: retained messages after any history -/
+
+open Mqtt.Proofs.BrokerRefine (okRun specRun) in
+open Mqtt.Spec.Broker (Accepts pubOf wild) in
+/-- **Refinement (Proofs/BrokerRefine.lean: `Broker_refines_spec`) for C08.**
+After any history admitted by `okRun` (see C01_refines_reference for the side
+condition) the retained trie holds exactly the reference broker's retained
+messages (`RetInv`: the last non-empty retained PUBLISH per topic), and a
+SUBSCRIBE with `good` filters on a live connection is answered - after the
+SUBACK - with PUBLISH packets to that connection only, all with RETAIN = 1, which
+are, DUP and identifier wildcarded and as a multiset, exactly the retained
+messages the reference broker demands: for every granted filter, in request
+order, the stored messages whose topic the filter matches, at the lower of
+stored and granted QoS. -/
+theorem C08_refines_reference (es : List Ev) (hok : okRun {} es = true) (c id : Nat)
+    (hl : (run {} es).1.alive c = true) (ts : List (Bytes × Nat)) (hg : ∀ tq ∈ ts, good tq.1 = true) :
+    RetInv (run {} es).1.topics.rroot (specRun {} es).1.rets ∧
+    Accepts (Mqtt.Spec.Broker.step (specRun {} es).1 (.packet c (.subscribe id ts))).2
+      (step (run {} es).1 (.packet c (.subscribe id ts))).2 ∧
+    ∃ rest, (step (run {} es).1 (.packet c (.subscribe id ts))).2 =
+        .send c (.suback id (ts.map (fun t => subCode t.1 t.2))) :: rest ∧
+      ((rest.filterMap pubOf).map wild).Perm
+        ((((ts.zip (ts.map (fun t => subCode t.1 t.2))).filter (fun p => p.2 != 0x80)).map
+          (fun p => Mqtt.Spec.Broker.retainedFor (specRun {} es).1 p.1.1 p.2)).flatten) ∧
+      ∀ y ∈ rest, ∃ w, y = .send c (.publish w) ∧ w.retain = true := by
+  have hR := Mqtt.Proofs.BrokerRefine.reach es hok
+  have hokev : Mqtt.Proofs.BrokerRefine.okEv (run {} es).1 (.packet c (.subscribe id ts)) = true := by
+    show ts.all (fun tq => good tq.1) = true
+    rw [List.all_eq_true]; exact hg
+  exact ⟨hR.rets, (Mqtt.Proofs.BrokerRefine.reach_step es hok _ hokev).2.1,
+    (Mqtt.Proofs.BrokerRefine.subscribe_refines hR c hl id ts hg).1⟩
 
 end Mqtt.Properties.C08
